@@ -3,14 +3,18 @@
 package main
 
 import (
+	"encoding/json"
 	"fmt"
 	"os"
 	"path/filepath"
 	"regexp"
+	"strings"
 	"testing"
+	"time"
 
 	"github.com/arm-doe/sts"
 	"github.com/arm-doe/sts/internal/verif/vh"
+	"github.com/arm-doe/sts/store"
 )
 
 // C19 (iii): the running sender applies each tag's settings to exactly the files whose
@@ -111,3 +115,94 @@ func TestC19Wiring(t *testing.T) {
 	}
 	rep.Bound = "every list of 1-2 tag patterns out of {\\.dat$, ^d/, ^abc, x} after the default tag, x 12 file names x group-by {default, ^([^\\.]*), ^([^/]*), ^(.*)$}; the real clientApp.init is run for each configuration and its tagger is asked for every name; reference: the first tag whose pattern matches the name, else the default tag"
 }
+
+// TestC19TwoSources: two sources of one configuration file run in one process (one clientApp
+// each). The second inherits the first one's include / ignore lists; each has its own tag with a
+// method other than http. Every sender must leave alone exactly the files of ITS OWN non-http
+// tag - whatever the other sender's wiring does with the lists they share.
+func TestC19TwoSources(t *testing.T) {
+	rep := vh.NewReport("C19", "two sources sharing inherited pattern lists, wired in one process (enumeration of list lengths)")
+	defer rep.Write()
+	root := vh.NewSandbox()
+	defer vh.RemoveSandbox(root)
+	n := 0
+	for nInc := 0; nInc <= 4; nInc++ {
+		for nIgn := 1; nIgn <= 4; nIgn++ {
+			n++
+			if !vh.Mine(n) {
+				continue
+			}
+			var inc, ign []string
+			for i := 0; i < nInc; i++ {
+				inc = append(inc, fmt.Sprintf(`"^inc%d|^t[01]/|^plain"`, i))
+			}
+			for i := 0; i < nIgn; i++ {
+				ign = append(ign, fmt.Sprintf(`"\\.ign%d$"`, i))
+			}
+			out0, out1 := filepath.Join(root, fmt.Sprintf("o0-%d", n)), filepath.Join(root, fmt.Sprintf("o1-%d", n))
+			_ = os.MkdirAll(out0, 0755)
+			_ = os.MkdirAll(out1, 0755)
+			text := fmt.Sprintf(`{"sources":[
+ {"name":"s0","out-dir":%q,"log-dir":%q,"threads":1,"include":[%s],"ignore":[%s],"target":{"name":"t","http-host":"recv:1992"},
+  "tags":[{"pattern":"DEFAULT","method":"http","order":"fifo"},{"pattern":"^t0/","method":"disk"}]},
+ {"name":"s1","out-dir":%q,"log-dir":%q,
+  "tags":[{"pattern":"DEFAULT","method":"http","order":"fifo"},{"pattern":"^t1/","method":"disk"}]}]}`,
+				out0, filepath.Join(root, "l0"), strings.Join(inc, ","), strings.Join(ign, ","), out1, filepath.Join(root, "l1"))
+			conf := &sts.ClientConf{}
+			if err := json.Unmarshal([]byte(text), conf); err != nil {
+				rep.Violate("", "the configuration does not parse: "+err.Error()+"\n"+text, map[string]int{"include": nInc, "ignore": nIgn})
+				continue
+			}
+			var apps []*clientApp
+			bad := ""
+			for i, src := range conf.Sources {
+				app := &clientApp{conf: src, dirCache: filepath.Join(root, fmt.Sprintf("cache%d-%d", i, n))}
+				if err := app.init(); err != nil {
+					bad = "clientApp.init failed: " + err.Error()
+					break
+				}
+				apps = append(apps, app)
+			}
+			rep.Executions++
+			rep.States++
+			rep.Transitions += 2
+			rep.Nontrivial++
+			rep.Sample(map[string]int{"include": nInc, "ignore": nIgn}, 3)
+			for i, app := range apps {
+				if bad != "" {
+					break
+				}
+				st, ok := app.broker.Conf.Store.(*store.Local)
+				if !ok {
+					bad = "the sender's store is not a store.Local"
+					break
+				}
+				own, other := fmt.Sprintf("t%d/file.dat", i), fmt.Sprintf("t%d/file.dat", 1-i)
+				if !st.ShouldIgnore(nameOnly(own)) {
+					bad = fmt.Sprintf("source s%d (include %d / ignore %d patterns, lists inherited by s1): file %q matches its tag with method 'disk', but the sender's store does not leave it alone (ignore list: %v)", i, nInc, nIgn, own, st.Ignore)
+				} else if st.ShouldIgnore(nameOnly(other)) {
+					bad = fmt.Sprintf("source s%d (include %d / ignore %d patterns): file %q matches no ignore pattern and no non-http tag of THIS source, yet its store ignores it (ignore list: %v)", i, nInc, nIgn, other, st.Ignore)
+				} else if st.ShouldIgnore(nameOnly("plain.dat")) {
+					bad = fmt.Sprintf("source s%d: plain.dat is ignored (ignore list: %v)", i, st.Ignore)
+				}
+			}
+			for _, app := range apps {
+				app.destroy()
+			}
+			rep.Outcome("wired")
+			if bad != "" {
+				rep.Violate("", bad, map[string]int{"include": nInc, "ignore": nIgn})
+			}
+		}
+	}
+	rep.Bound = "configuration files with two sources, the first giving 0-4 include and 1-4 ignore patterns and a tag ^t0/ with method disk, the second inheriting both lists and carrying a tag ^t1/ with method disk; both are wired by the real clientApp.init in one process; each store must ignore exactly its own source's non-http files"
+}
+
+// nameOnly is an sts.File of which only the name matters.
+type nameOnly string
+
+func (n nameOnly) GetPath() string    { return string(n) }
+func (n nameOnly) GetName() string    { return string(n) }
+func (n nameOnly) GetSize() int64     { return 1 }
+func (n nameOnly) GetTime() time.Time { return time.Time{} }
+func (n nameOnly) GetMeta() []byte    { return nil }
